@@ -548,7 +548,8 @@ Qed.
 
 Theorem ginv_step bk st e : ginv bk st -> ginv bk (ss_step bk st e).
 Proof.
-  destruct e; [apply ginv_put | apply ginv_start | apply ginv_ack | apply ginv_register].
+  destruct e as [d|d pre|c f|kz ok|kz]; [apply ginv_put | | apply ginv_start | apply ginv_ack | apply ginv_register].
+  intro G. simpl. destruct (pre && is_bolt bk); [exact G | apply (ginv_put bk st d G)].
 Qed.
 Theorem ginv_run bk es : forall st, ginv bk st -> ginv bk (ss_run bk st es).
 Proof. induction es as [|e t IH]; simpl; auto. intros st G. apply IH. apply ginv_step; auto. Qed.
@@ -592,13 +593,17 @@ Qed.
 (* positions: the beacon at index i of the store has round i *)
 Definition store_rounds (sto : list beacon) : Prop :=
   forall i b, nth_error sto i = Some b -> fst b = Z.of_nat i.
+Lemma store_rounds_put bk st d : store_rounds (store st) -> store_rounds (store (put_step bk st d)).
+Proof.
+  intro H. simpl. intros i b Hn. destruct (Nat.lt_ge_cases i (length (store st))) as [Lt|Ge].
+  - rewrite nth_error_app1 in Hn; auto.
+  - rewrite nth_error_app2 in Hn; auto. destruct (i - length (store st))%nat as [|m] eqn:Ei; simpl in Hn; [|destruct m; discriminate].
+    inversion Hn; subst. simpl. f_equal. lia.
+Qed.
 Lemma store_rounds_step bk st e : store_rounds (store st) -> store_rounds (store (ss_step bk st e)).
 Proof.
-  intro H. destruct e as [d|c f|kz ok|kz]; simpl; auto.
-  - intros i b Hn. destruct (Nat.lt_ge_cases i (length (store st))) as [Lt|Ge].
-    + rewrite nth_error_app1 in Hn; auto.
-    + rewrite nth_error_app2 in Hn; auto. destruct (i - length (store st))%nat as [|m] eqn:Ei; simpl in Hn; [|destruct m; discriminate].
-      inversion Hn; subst. simpl. f_equal. lia.
+  intro H. destruct e as [d|d pre|c f|kz ok|kz]; [apply store_rounds_put; auto | | simpl; auto ..].
+  - simpl. destruct (pre && is_bolt bk); [auto | apply store_rounds_put; auto].
   - repeat match goal with |- store_rounds (store (match ?x with _ => _ end)) => destruct x end; auto.
   - repeat match goal with |- store_rounds (store (match ?x with _ => _ end)) => destruct x end; auto.
 Qed.
@@ -679,13 +684,21 @@ Lemma origin_fields s s' : s_from s' = s_from s -> s_base s' = s_base s ->
   (forall e, s_phase s <> PDone e) -> same_origin s s'.
 Proof. intros A B C. repeat split; auto. intros e H. destruct (C _ H). Qed.
 
+Lemma base_ok_put bk st d :
+  (forall k s, nth_error (streams st) k = Some s -> base_ok s) ->
+  forall k s, nth_error (streams (put_step bk st d)) k = Some s -> base_ok s.
+Proof.
+  intros I k s'. simpl.
+  rewrite nth_map_idx. destruct (nth_error (streams st) k) as [s|] eqn:A; [|discriminate]. simpl. intro H. inversion H; subst.
+  eapply base_ok_same; [apply on_put_origin | eauto].
+Qed.
+
 Lemma base_ok_step bk st e :
   (forall k s, nth_error (streams st) k = Some s -> base_ok s) ->
   forall k s, nth_error (streams (ss_step bk st e)) k = Some s -> base_ok s.
 Proof.
-  intros I k s'. destruct e as [d|c f|kz ok|kz]; simpl.
-  - rewrite nth_map_idx. destruct (nth_error (streams st) k) as [s|] eqn:A; [|discriminate]. simpl. intro H. inversion H; subst.
-    eapply base_ok_same; [apply on_put_origin | eauto].
+  intros I k s'. destruct e as [d|d pre|c f|kz ok|kz]; [apply base_ok_put; auto | | simpl ..].
+  - simpl. destruct (pre && is_bolt bk); [apply I | apply base_ok_put; auto].
   - intro H. destruct (Nat.lt_ge_cases k (length (streams st))) as [Lt|Ge].
     + rewrite nth_error_app1 in H; eauto.
     + rewrite nth_error_app2 in H; auto. destruct (k - length (streams st))%nat as [|m]; simpl in H; [|destruct m; discriminate].
